@@ -601,12 +601,14 @@ impl DtlsInner {
     ) -> Result<()> {
         match content_type {
             ContentType::ChangeCipherSpec => {
-                trace!(
-                    "Received ChangeCipherSpec, advancing read_epoch {} -> {}",
-                    ctx.read_epoch,
-                    ctx.read_epoch.saturating_add(1)
-                );
-                ctx.read_epoch = ctx.read_epoch.saturating_add(1);
+                // ChangeCipherSpec travels in the clear, so anybody can send one at any
+                // time. The peer switches epochs exactly once (there is no
+                // renegotiation): the read epoch moves from 0 to 1 and a later copy -
+                // a retransmitted flight, a forged datagram - changes nothing.
+                trace!("Received ChangeCipherSpec (read_epoch {})", ctx.read_epoch);
+                if ctx.read_epoch == 0 {
+                    ctx.read_epoch = 1;
+                }
             }
             ContentType::ApplicationData => {
                 // Epoch 0 records are not authenticated: application data is only
